@@ -727,6 +727,10 @@ def boundary_cfgs(kind, r, tier):
                 {"k": "chunk", "ssrc": gen.r_u32(r), "items": [{"type": 8, "value": gen.r_text(r, vl), "prefix": gen.r_bytes(r, pl)}]}]})
         for vl in (256, 257, 300, 512):
             out.append({"k": "sdes", "padding": 0, "chunks": [{"k": "chunk", "ssrc": 5, "items": [{"type": 1, "value": gen.r_text(r, vl)}]}]})
+        # a prefix on an item that is not PRIV has no effect (every length that moves a word boundary)
+        for pl in range(1, 9):
+            out.append({"k": "sdes", "padding": r.choice([0, 4]), "_keep": True, "chunks": [{"k": "chunk", "ssrc": 5, "items": [
+                {"type": r.choice([1, 2, 7, 255]), "value": gen.r_text(r, r.randint(0, 3)), "prefix": gen.r_bytes(r, pl)}]}]})
         for nc in range(0, 34):
             out.append({"k": "sdes", "padding": 0, "chunks": [{"k": "chunk", "ssrc": i * 0x01000001 & 0xffffffff, "items": [{"type": 1, "value": b"a" * (i % 5)}] if i % 3 else []} for i in range(nc)]})
         for p in pads_all:
@@ -863,6 +867,18 @@ def boundary_cfgs(kind, r, tier):
                 out.append({"k": "compound", "members": ms})
         out.append({"k": "compound", "members": []})
         out.append({"k": "compound", "members": [{"k": "compound", "members": []}]})
+        # a setting that has no effect on a packet must have none on the compound that holds it: an
+        # SDES item that is not PRIV with a prefix set (ignored by the size and by the writer), the
+        # SDES builder handed to the compound directly, alone / first / last
+        for pl in (1, 2, 3, 4, 8):
+            def sd():
+                return {"k": "sdes", "padding": 0, "chunks": [{"k": "chunk", "ssrc": 5, "items": [
+                    {"type": r.choice([1, 2, 7]), "value": b"ab", "prefix": bytes(range(1, pl + 1))}]}]}
+            rr_ = {"k": "rr", "ssrc": 1, "padding": 0, "rbs": []}
+            bye_ = {"k": "bye", "padding": 0, "sources": [7], "reason": None}
+            out.append({"k": "compound", "_keep": True, "members": [sd()]})
+            out.append({"k": "compound", "_keep": True, "members": [dict(rr_), sd()]})
+            out.append({"k": "compound", "_keep": True, "members": [sd(), dict(bye_)]})
         # valid nestings of several packets (the random compounds are rarely valid at depth)
         def vm():
             c = gen.legalize(r, wf_cfg_for(r.choice(["rr", "sr", "bye", "app", "sdes", "tfb", "pfb", "unknown"]), r))
